@@ -74,7 +74,7 @@ def auto_case(case):
     the real objects per increment) are compared state by state like the manual ones, plus the oracle."""
     v, ops, impl, info = ctl.run_scenario(case)
     viols = [(k.replace("c05.", "c05.auto-"), w) for k, w in oracle_auto(case, v, info)]
-    if any(type(v.ps.get_comp(nm)).__name__ in ("Sensor", "IntelligentSwitch") for fl in case["faults"].values() for nm, _ in fl):
+    if any(type(ctl.comp(v.ps, nm)).__name__ in ("Sensor", "IntelligentSwitch") for fl in case["faults"].values() for nm, _ in fl):
         viols = [(k.replace("c05.auto-", "c05.auto-devfail."), w) for k, w in viols]
     sig = set()
     for r in info:
@@ -145,6 +145,10 @@ def gen(rng, n_manual, n_auto):
         if c["kind"] == "auto" and rng.random() < 0.25:
             from . import c06
             c06.device_failures(rng, c)
+        if c["kind"] == "auto" and rng.random() < 0.3:
+            # the main controller goes down for a while (the sub-controllers fall back on the manual loops) and comes back
+            for _ in range(rng.choice([1, 2])):
+                c["faults"].setdefault(str(rng.randint(1, 12)), []).append(["C1", str(rng.choice([F(1, 2), F(1), F(2), F(5, 2)]))])
         cases.append(c)
     return cases
 
